@@ -38,7 +38,10 @@ pub fn run(ctx: &mut Ctx) {
                   "---\nprep time: 5 min\ncook time: 10 min\ntime: 20 min\n---\nMix.\n", "---\ntime: 20 min\ncook time: 1h\nprep time: 5 min\nservings: a few\ntags: [a, b]\nlocale: zz_\n---\nMix.\n",
                   ">> servings: x\n>> time: y\n>> locale: zzz\n>> prep time: z\n>> cook time: w\n>> author: <>\n>> source: <>\n",
                   ">> a: 1\n>> b: 2\n>> c: 3\n>> d: 4\n>> e: 5\n>> f: 6\n>> g: 7\n>> h: 8\n>> i: 9\n",
-                  "@x{1%kg} then @&x{500%ml} and @&x{some} and @&x{1%lb} and @y{1%l} then @&y{2%kg}", "@a{1%l} @&a{1%kg} @&a{1%cup} @&a{1%g} @&a{2} @&a{x}"] {
+                  "@x{1%kg} then @&x{500%ml} and @&x{some} and @&x{1%lb} and @y{1%l} then @&y{2%kg}", "@a{1%l} @&a{1%kg} @&a{1%cup} @&a{1%g} @&a{2} @&a{x}",
+                  // the same template with different words at the same byte positions (a memo keyed by position would mix them up)
+                  "Add @olive  oil{1%tbsp} now.", "Add @white  rum{1%tbsp} now.", "Add @clear  gin{1%tbsp} now.", "= My  part\n\nMix #big  pot{}.", "= Go  home\n\nMix #red  pan{}.",
+                  ">> a  b: c  d\n\nx", ">> e  f: g  h\n\nx"] {
             inputs.push(s.to_string());
         }
         // (a) fresh parser per input (+ model)
@@ -94,8 +97,9 @@ pub fn run(ctx: &mut Ctx) {
             let fresh_d: Vec<String> = dense.iter().map(|s| image(&mk(), s)).collect();
             let shared = Arc::new(mk());
             let dense_a = Arc::new(dense.clone());
-            let nt = 8usize;
-            let reps = if ctx.thorough { 20_000 } else { 3_000 };
+            // sometimes many more threads than cores (parses in flight on other threads must not count for anything)
+            let nt = if round % 4 == 1 { 48usize } else { 8usize };
+            let reps = if ctx.thorough { 20_000 } else if nt > 8 { 600 } else { 3_000 };
             let barrier = Arc::new(Barrier::new(nt));
             let mut hs = Vec::new();
             for t in 0..nt {
